@@ -231,9 +231,11 @@ def prov_to_dot(
             ann_rows.extend(
                 ANNOTATION_ROW_TEMPLATE
                 % (
-                    attr.uri,
+                    escape(attr.uri),
                     escape(str(attr)),
-                    ' href="%s"' % value.uri if isinstance(value, Identifier) else "",
+                    ' href="%s"' % escape(value.uri)
+                    if isinstance(value, Identifier)
+                    else "",
                     escape(
                         str(value)
                         if not isinstance(value, datetime)
@@ -271,9 +273,9 @@ def prov_to_dot(
                     # the main node text, whereas the identifier will be a
                     # kind of subtitle.
                     node_label = (
-                        f"<{record.label}<br />"
+                        f"<{escape(str(record.label))}<br />"
                         f'<font color="#333333" point-size="10">'
-                        f'{record.identifier}</font>>'
+                        f"{escape(str(record.identifier))}</font>>"
                     )
             else:
                 node_label = _dot_quote(record.identifier)
